@@ -44,6 +44,8 @@ Ret(e)        == [k |-> "ret", e |-> e]
 Call(f, a)    == [k |-> "call", f |-> f, cls |-> "pure", bang |-> FALSE, a |-> a]
 CallB(f, a)   == [k |-> "call", f |-> f, cls |-> "pure", bang |-> TRUE, a |-> a]
 Del(q)        == [k |-> "call", f |-> "del", cls |-> "del", bang |-> FALSE, a |-> <<>>, q |-> q]
+\* del(path, true): compacting deletion
+DelC(q)       == [k |-> "call", f |-> "del", cls |-> "del", bang |-> FALSE, a |-> <<[k |-> "lit", v |-> Bool(TRUE)]>>, q |-> q]
 Exists(q)     == [k |-> "call", f |-> "exists", cls |-> "exists", bang |-> FALSE, a |-> <<>>, q |-> q]
 Iter(f, coll, ps, body) ==
   [k |-> "call", f |-> f, cls |-> "iter", bang |-> FALSE, a |-> <<coll>>, cl |-> [p |-> ps, s |-> body]]
@@ -227,6 +229,9 @@ Setters ==
    If(<<CondC>>, <<Asg(TVar("x"), Lit(Str("t")))>>),
    IfElse(<<CondC>>, <<Asg(TVar("x"), Lit(IntV(2)))>>, <<Asg(TVar("x"), Lit(Null))>>),
    If(<<CondC>>, <<Asg(TExt(pa), Lit(Str("t")))>>),
+   \* a constant on one path only / on neither path
+   If(<<CondC>>, <<Asg(TVar("x"), Q(pa))>>), Asg(TVar("x"), Lit(Bool(FALSE))),
+   IfElse(<<CondC>>, <<Asg(TVar("x"), Q(pa))>>, <<Asg(TVar("x"), Lit(Bool(FALSE)))>>),
    Del(TVarP("x", pa)), Del(TExt(pa)), Del(TExt(<<F("b"), F("c")>>)),
    Asg(TVar("y"), Var("x")), Asg(TVar("y"), Op("mul", Lit(IntV(2)), Lit(IntV(3)))),
    Asg(TVar("y"), Lit(IntV(0))),
@@ -243,6 +248,12 @@ Users ==
    Asg(TVar("z"), Op("mul", Var("y"), Lit(IntV(2)))), Asg(TVar("z"), Call("length", <<Var("x")>>)),
    Asg(TVar("z"), Op("lt", Var("x"), Lit(IntV(3)))), Asg(TVar("z"), Op("and", Var("x"), Lit(Bool(TRUE)))),
    Asg(TVar("z"), Op("add", Q(<<F("o"), F("p")>>), QV("x", <<I(0)>>))),
+   \* the left operand changes what the right operand is (type state must flow lhs -> rhs)
+   Asg(TVar("z"), Op("div", Group(Asg(TVar("y"), Lit(IntV(0)))), Var("y"))),
+   Asg(TVar("z"), Op("div", Block(<<If(<<CondC>>, <<Asg(TVar("y"), Lit(IntV(0)))>>), Lit(IntV(100))>>), Var("y"))),
+   Asg(TVar("z"), Op("add", Group(Asg(TVar("x"), Lit(Str("s")))), Var("x"))),
+   Asg(TVar("z"), Op("mul", Block(<<If(<<CondC>>, <<Asg(TVar("y"), Lit(Str("s")))>>), Lit(IntV(2))>>), Var("y"))),
+   Asg(TVar("z"), Op("or", Var("x"), Lit(Str("fallback")))), Asg(TVar("z"), Op("and", Var("x"), Lit(Bool(TRUE)))),
    Asg(TVar("z"), Lit(Null))}
 ObserveT == <<ObjN(<<"a", "b", "m", "r", "x", "xa", "y">>,
                    <<Q(pa), Q(pb), QM(<<F("m")>>), Q(<<>>), Var("x"), QV("x", pa), Var("y")>>)>>
@@ -265,6 +276,7 @@ Writes15 ==
    Del(TExt(pa)), Del(TExt(<<F("a"), I(-1)>>)), Del(TExt(<<F("a"), I(0)>>)), Del(TExt(pab)), Del(TExt(proot)),
    Asg(TMeta(<<F("m")>>), Lit(IntV(1))), Asg(TMeta(<<F("m"), F("k")>>), Lit(IntV(2))),
    Asg(TMeta(proot), ObjN(<<>>, <<>>)), Del(TMeta(<<F("m")>>)),
+   DelC(TExt(pab)), DelC(TMeta(<<F("m"), F("k")>>)), Asg(TExt(pz), DelC(TExt(<<F("a"), I(0)>>))),
    Asg2(TExt(pa), TVar("err"), Call("to_int", <<Q(<<F("x")>>)>>)),
    Asg2(TVar("ok"), TExt(pa), Call("to_int", <<Q(<<F("x")>>)>>)),
    Iter("for_each", ObjN(<<"p">>, <<Lit(IntV(1))>>), <<"k", "v">>, <<Asg(TExt(<<F("a"), I(-1)>>), Var("v"))>>)}
@@ -273,8 +285,10 @@ Progs_C15 == {<<w>> : w \in Writes15}
 RoEntries == {[pre |-> pre, p |-> p, rec |-> r] :
                 pre \in {"event"}, p \in {proot, pa, pab, <<F("a"), I(0)>>, <<F("a"), I(1)>>, <<F("a"), I(-1)>>}, r \in BOOLEAN}
              \cup {[pre |-> "meta", p |-> p, rec |-> r] : p \in {proot, <<F("m")>>, <<F("m"), F("k")>>}, r \in BOOLEAN}
+\* sets of one entry, and of two (quick: the first one recursive - entries are kept in an ordered
+\* set by the compiler, so how one entry's verdict affects the next matters)
 RoSets == {<<e>> : e \in RoEntries}
-          \cup (IF Thorough THEN {<<e1, e2>> : e1 \in RoEntries, e2 \in RoEntries} ELSE {})
+          \cup {<<e1, e2>> : e1 \in {e \in RoEntries : Thorough \/ e.rec}, e2 \in RoEntries}
 ASSUME Focus = "C15" => PrintT(<<"ROSETS", ToJson(SetToSeq(RoSets))>>)
 Events15 == << [ev |-> EmptyObj, meta |-> EmptyObj],
                [ev |-> Obj([a |-> IntV(5), x |-> Str("7")]), meta |-> Obj([m |-> IntV(1)])],
@@ -316,8 +330,12 @@ Progs == CASE Focus = "C09" -> Progs_C09
            [] Focus = "C08" -> Progs_C08
            [] Focus \in {"C06", "C07"} -> Progs_Ctl
            [] Focus = "C13" -> Progs_C13
-           [] Focus \in {"C01", "C02", "C12", "C16"} -> Progs_C01
-           [] Focus = "C17" -> Progs_C09 \cup Progs_C08
+           [] Focus \in {"C01", "C02", "C12"} -> Progs_C01
+           \* every construct that touches the target: all assignment forms and targets, del, exists,
+           \* queries, closures writing paths, metadata
+           [] Focus = "C16" -> Progs_C08 \cup Progs_C09 \cup Progs_C15
+                               \cup {PreludeT \o <<st>> \o ObserveT : st \in Setters}
+           [] Focus = "C17" -> Progs_C09 \cup Progs_C08 \cup {<<w, ObjN(<<"r">>, <<Q(proot)>>)>> : w \in Writes15}
            [] Focus = "C15" -> Progs_C15
            [] Focus = "C34" -> Progs_C34
 
@@ -340,9 +358,9 @@ Init == prog \in Progs
 Next == UNCHANGED prog
 Spec == Init /\ [][Next]_prog
 
-ASSUME PrintT(<<"EVENTS", ToJson(IF Focus = "C15" THEN Events15 ELSE Events)>>)
+ASSUME PrintT(<<"EVENTS", ToJson(IF Focus = "C15" THEN Events15 ELSE IF Focus = "C17" THEN Events \o Events15 ELSE Events)>>)
 
-TypedFocus == Focus \in {"C01", "C02", "C12", "C16"}
+TypedFocus == Focus \in {"C01", "C02", "C12"}
 \* events conforming to the external kinds (membership decided by the spec's own InKind)
 Conforming(ext) == {e \in EvPool : InKind(e.ev, ext.target) /\ InKind(e.meta, ext.meta)}
 ExtCases == {[ext |-> [target |-> ext.target, meta |-> ext.meta], extname |-> ext.name,
